@@ -332,24 +332,63 @@ func diffSummary(rs []GenRun) string {
 	return strings.Join(parts, "; ")
 }
 
-// knownClass: the known-finding class the INPUT falls in.
+// knownClass: the finding class the INPUT falls in (known_findings.d/C17.json): the one open finding first, then the
+// classes of the repaired defects (they only matter when the case fails, i.e. on a tree without the repairs).
 func (in *Input) knownClass() string {
+	if c := in.shadowClass(); c != "" {
+		return c
+	}
+	for _, d := range in.Decls {
+		for _, f := range d.Fields {
+			if f.K == KError {
+				return "error_field"
+			}
+		}
+	}
+	for _, d := range in.Decls {
+		for _, f := range d.Fields {
+			if f.K != KNamed {
+				continue
+			}
+			t := in.decl(f.A)
+			if t == nil {
+				continue
+			}
+			switch {
+			case t.Kind == DIface:
+				return "named_interface_field"
+			case len(f.Args) > 0:
+				return "instantiated_generic_field"
+			case !in.enabled(t):
+				return "untagged_dependency"
+			case t.Kind == DMap:
+				return "named_map_field_first_run"
+			}
+		}
+	}
+	for _, d := range in.Decls {
+		if d.Kind == DMap && d.Ifaces {
+			return "interfaces_tag_on_map_type"
+		}
+	}
+	return ""
+}
+
+func (in *Input) shadowClass() string {
 	if in.ShadowPkg == "" {
+		return ""
+	}
+	// the locals declared around the make(...) expression: i, o (block) and in, out (receiver, parameter);
+	// key and val are declared by the for statement AFTER make(...), so they do not shadow the type expression
+	switch in.ShadowPkg {
+	case "i", "o", "in", "out":
+	default:
 		return ""
 	}
 	for _, d := range in.Decls {
 		for _, f := range d.Fields {
-			if f.K == KSlice && strings.Contains(f.A, ".") {
-				switch in.ShadowPkg {
-				case "i", "o", "in", "out":
-					return "import_name_shadows_template_local"
-				}
-			}
-			if f.K == KMap && strings.Contains(f.B, ".") {
-				switch in.ShadowPkg {
-				case "i", "o", "in", "out", "key", "val":
-					return "import_name_shadows_template_local"
-				}
+			if (f.K == KSlice && strings.Contains(f.A, ".")) || (f.K == KMap && strings.Contains(f.B, ".")) {
+				return "import_name_shadows_template_local"
 			}
 		}
 	}
